@@ -46,6 +46,36 @@ CHECKS = {
         },
         "assumptions": COMMON_ASSUME,
     },
+    "C03": {
+        "bin": "c03",
+        "quick": cfgs(["dflt", "cmp", "p2", "rdx", "cmprdxfmt"]),
+        "thorough": cfgs(["dflt", "cmp", "p2", "cmprdxfmt"]) + cfgs(["rdx"], args=["--all32"]),
+        "rule": "integer value family INT(T, r): every value of the 8/16-bit types; for wider types r^k-1, r^k, r^k+1, 2^j-1, 2^j, 2^j+1, "
+                "MIN/MAX neighbourhoods, all sparse numerals (<= 2 or 3 non-zero digit positions, digits 1 and r-1) and all-(r-1) numerals of "
+                "every length; x every supported radix x 12 types; each written into a buffer of exactly FORMATTED_SIZE(_DECIMAL) bytes placed "
+                "flush against a trailing and a leading guard page with canaries; output compared byte for byte with the reference numeral "
+                "(three-way with Display for radix 10); non-trivial = numerals longer than 2 bytes",
+        "bounds": {
+            "quick": "sparse numerals with <= 2 non-zero positions; all radices of the feature set",
+            "thorough": "sparse numerals with <= 3 non-zero positions; plus every u32 and i32 value in radices 10, 2, 3, 7, 16, 36 (rdx config)",
+        },
+        "assumptions": COMMON_ASSUME,
+    },
+    "C04": {
+        "bin": "c04",
+        "quick": cfgs(["dflt", "cmp", "rdx", "rdxfmt", "cmprdxfmt"]),
+        "thorough": cfgs(["dflt", "cmp", "p2", "rdx", "rdxfmt", "cmprdxfmt"]),
+        "rule": "string families S (every string over {+,-,0,1,max digit in both cases,lowest non-digit,_,0xFF} to depth L), NUM (numerals of INT "
+                "values and of MAX+1, MAX+r, (MAX+1)*r, MAX*r+r-1 in 30 variants: case, leading zeros, sign, trailing junk, embedded invalid bytes), "
+                "FILL (repeated-digit numerals of every length up to digits(MAX)+3), RANGE (8/16-bit types: every value in [-70000, 70000]); "
+                "x 12 types x radices x {parse, parse_partial} x no_multi_digit on/off; value, consumed count, error kind and index compared "
+                "with the literal left-to-right reference scan; non-trivial = inputs that are valid numerals or overflow",
+        "bounds": {
+            "quick": "S depth 5 for radices {2,8,10,16,17,36}; NUM/FILL all radices; RANGE radices {2,8,10,16,17,36}",
+            "thorough": "S depth 7, all 35 radices for u8/i8/u64/i128; RANGE all radices",
+        },
+        "assumptions": COMMON_ASSUME + ["partial parser on an input with no digit before the first non-digit: outcome not defined by the statement, only indices <= len are checked"],
+    },
 }
 
 # properties not claimed (reason). Kept current by hand.
